@@ -152,6 +152,24 @@ func (x *world) checkC02w(label string) {
 		return
 	}
 	env.Count("probe.c02w-checked")
+	{
+		ds := make([]wtxmgr.TxDetails, 0, len(order))
+		for _, id := range order {
+			ds = append(ds, recs[id].d)
+		}
+		if found, byClient, what := x.spenderAnnouncedBeforeParent(ds); found {
+			if byClient {
+				// not a chain-consistent notification sequence: see
+				// spenderAnnouncedBeforeParent
+				env.Count("observed.spender-confirmation-announced-before-its-parent's")
+				env.Logf("outside the statement: %s", what)
+				x.violated = true
+				return
+			}
+			x.fail("c02w:credit-unspent-though-a-confirmed-transaction-spends-it:at="+at, "%s: %s", label, what)
+			return
+		}
+	}
 
 	// (a) disconnected blocks
 	for _, id := range order {
